@@ -4028,8 +4028,19 @@ fn equiv_case(case_seed: u64, rep: &mut Report) {
                 if m.index_built {
                     if let (Op::SimilarKey { metric: None | Some(0), k, .. } | Op::SimilarVec { metric: None | Some(0), k, .. }, QueryResult::Similar(x), Direct::Similar(_, full)) = (&op, qa, db) {
                         cosine_over_index = true;
+                        // the query vector of this statement (the stored vector of the key, or the literal)
+                        let query: Option<Vec<f32>> = match &op {
+                            Op::SimilarKey { key, .. } => b.vector().get_embedding(key).ok(),
+                            Op::SimilarVec { vec, .. } => Some(vec.iter().map(lit_f32).collect()),
+                            _ => None,
+                        };
+                        let zero_query = query.as_ref().map_or(true, |q| q.iter().all(|x| *x == 0.0));
                         if index_stale {
                             rep.count("similar_cosine_over_stale_index_not_judged", 1);
+                        } else if zero_query {
+                            // cosine against a zero vector is undefined (0/0): the exact route answers
+                            // nothing, the index answers something with score 0 - no score to compare
+                            rep.count("similar_cosine_with_zero_query_not_judged", 1);
                         } else {
                             let truth: HashMap<&String, f32> = full.iter().map(|(k, s)| (k, *s)).collect();
                             let wrong = x.iter().find(|r| truth.get(&r.key).map_or(true, |s| (s - r.score).abs() > 1e-4));
